@@ -1,9 +1,8 @@
-\* an honest stream (height 1 or 2) beside a stream that violates the grammar, repaired model
+\* repaired; an honest future-height stream beside a stream that violates the grammar
 CONSTANTS Streams <- MCStreams Choices <- ChQ1 BadBatches <- MCBad InitHeight = 1 MaxHeight = 2
-  InputCap = 2 OutCap = 1 MaxDup = 2 MaxExtra = 1 MaxGot = 2
-  FixNilState = TRUE FixBlock = TRUE FixReFin = TRUE SeqWindow = 8 Mut = "none"
+  InputCap = 2 OutCap = 1 MaxDup = 1 MaxExtra = 0 MaxGot = 2
+  FixNilState = TRUE FixBlock = TRUE FixReFin = TRUE SeqWindow = 8 BufBound = 8 Mut = "none"
 INIT Init
 NEXT Next
-INVARIANTS TypeOK DeliveredIsMeant BadStreamNeverDelivers DeliveredEqualsSent AtMostOneProposalPerStream
-  NoDeliveryForPastHeight RunsAtOwnHeight RegisteredStarted FutureWaits DemuxNeverStops BufferBounded
+INVARIANTS TypeOK DeliveredIsMeant BadStreamNeverDelivers DeliveredEqualsSent NoDeliveryForPastHeight RunsAtOwnHeight RegisteredStarted FutureWaits AtMostOneProposalPerStream DemuxNeverStops BufferBounded
 CHECK_DEADLOCK FALSE
